@@ -30,6 +30,7 @@ class Sim:
         self.rng, self.n, self.toks = rng, {}, []
         self.stack, self.tls, self.owned, self.dead = set(), {}, set(), set()
         self.nid = 0
+        self.ids = []
         self._reach = None
 
     # -- bookkeeping
@@ -43,10 +44,9 @@ class Sim:
         if nd['k'] in 'TE': return list(nd['kv'].values())
         return list(nd['items'])
 
-    def reach(self):
-        """registered nodes the collector must keep (same edges as the Coq `reach`)"""
-        if self._reach is not None: return self._reach
-        seen, work = set(), []
+    def _grow(self, seen, start):
+        """close `seen` under the trace edges, starting from the words in `start` (handed to GC_Mark_Item)"""
+        work = []
 
         def hand(q):
             if q and q not in self.dead and self.isreg(q) and q not in seen:
@@ -62,13 +62,30 @@ class Sim:
                         else: st.append(p)          # raw object: GC_Recurse without a mark bit
                 else:
                     for p in self.ptrs(j): hand(p)
-        for v in self.tls.values(): hand(v)
-        for i, nd in self.n.items():
-            if nd['root'] and self.isreg(i) and i not in self.dead: trace(i)
-        for i in self.stack: hand(i)
+        for q in start:
+            if isinstance(q, tuple): trace(q[1])    # ('trace', id): the contents of a root-flagged object
+            else: hand(q)
         while work: trace(work.pop())
+
+    def reach(self):
+        """registered nodes the collector must keep (same edges as the Coq `reach`)"""
+        if self._reach is not None: return self._reach
+        seen = set()
+        start = list(self.tls.values())
+        start += [('trace', i) for i, nd in self.n.items() if nd['root'] and self.isreg(i) and i not in self.dead]
+        start += list(self.stack)
+        self._grow(seen, start)
         self._reach = seen
         return seen
+
+    def grew(self, holder, t):
+        """an edge holder -> t (or a root, holder None) was ADDED: update the cached reach set in place"""
+        if self._reach is None: return
+        if holder is None or (self.isreg(holder) and (holder in self._reach or self.n[holder]['root'])):
+            if self.isreg(t): self._grow(self._reach, [t])
+            elif holder is not None and self.n[holder]['k'] in 'Uu': self._reach = None     # raw object behind a Tuple item
+        elif not self.isreg(holder):
+            self._reach = None                                   # raw holder: may sit behind a Tuple item
 
     def usable(self, i):
         """may the program still use pointer i ?"""
@@ -94,6 +111,21 @@ class Sim:
     def subjects(self, kinds):
         return [i for i in self.n if self.n[i]['k'] in kinds and self.usable(i)]
 
+    def pick(self, pred, tries=40):
+        """a random node satisfying pred (rejection sampling; None when none is found)"""
+        ids = self.ids
+        if not ids: return None
+        for _ in range(tries):
+            i = ids[self.rng.randrange(len(ids))]
+            if pred(i): return i
+        return None
+
+    def pick_target(self, holder=None):
+        return self.pick(lambda t: t not in self.owned and self.usable(t) and (holder is None or ok_edge(self, holder, t)))
+
+    def pick_subject(self, kinds, avoid=()):
+        return self.pick(lambda i: self.n[i]['k'] in kinds and i not in avoid and self.usable(i))
+
     def indegree(self, t):
         c = sum(1 for i in self.n if i != t and i not in self.dead and t in self.ptrs(i))
         c += sum(1 for i in self.n if i == t and t in self.ptrs(i))
@@ -104,9 +136,9 @@ class Sim:
         self.nid += 1
         i = self.nid
         self.n[i] = {'k': k, 'root': root and k in REGK, 'f': [0, 0] if k in 'Ss' else [0], 'items': [], 'kv': {}}
-        self.stack.add(i)
+        self.stack.add(i); self.ids.append(i)
         self.emit('N%d%s%s' % (i, k, '!' if self.n[i]['root'] else ''))
-        self.dirty()
+        self.grew(None, i)
         return i
 
     def copy(self, src):
@@ -114,22 +146,29 @@ class Sim:
         i = self.nid
         sn = self.n[src]
         self.n[i] = {'k': sn['k'].upper(), 'root': False, 'f': list(sn['f']), 'items': list(sn['items']), 'kv': dict(sn['kv'])}
-        self.stack.add(i)
+        self.stack.add(i); self.ids.append(i)
         self.emit('C%d=%d' % (i, src)); self.dirty()
         return i
 
     def store(self, i, slot, t):
+        old = self.n[i]['f'][slot]
         self.n[i]['f'][slot] = t
-        self.emit('P%d.%d=%d' % (i, slot, t)); self.dirty()
+        self.emit('P%d.%d=%d' % (i, slot, t))
+        if old or not t: self.dirty()
+        else: self.grew(i, t)
 
     def insert(self, i, t, key=None):
         nd = self.n[i]
+        replaced = False
         if nd['k'] in 'TE':
             if key is None: key = self.rng.randrange(0, 64)
+            replaced = key in nd['kv']
             nd['kv'][key] = t
         else:
             key = 0; nd['items'].append(t)
-        self.emit('I%d,%d=%d' % (i, key, t)); self.dirty()
+        self.emit('I%d,%d=%d' % (i, key, t))
+        if replaced: self.dirty()
+        else: self.grew(i, t)
 
     def remove(self, i):
         nd = self.n[i]
@@ -143,12 +182,16 @@ class Sim:
         return True
 
     def keep(self, i):
-        if i not in self.stack: self.stack.add(i); self.emit('K+%d' % i); self.dirty()
+        if i not in self.stack: self.stack.add(i); self.emit('K+%d' % i); self.grew(None, i)
 
     def drop(self, i):
         if i in self.stack: self.stack.discard(i); self.emit('K-%d' % i); self.dirty()
 
-    def tls_set(self, slot, t): self.tls[slot] = t; self.emit('T+%d=%d' % (slot, t)); self.dirty()
+    def tls_set(self, slot, t):
+        old = slot in self.tls
+        self.tls[slot] = t; self.emit('T+%d=%d' % (slot, t))
+        if old: self.dirty()
+        else: self.grew(None, t)
 
     def tls_rem(self, slot):
         if slot in self.tls: del self.tls[slot]; self.emit('T-%d' % slot); self.dirty()
@@ -214,6 +257,7 @@ def gen_random(rng, maxnodes, maxops):
     s = Sim(rng)
     nops = rng.randrange(8, maxops)
     kinds = 'SSRRBALTEUU' + ('sru' if rng.random() < .4 else '')
+    HOLD = 'SRALTEUsru'
     for _ in range(nops):
         r = rng.random()
         if r < .30 and len(s.n) < maxnodes:
@@ -221,58 +265,57 @@ def gen_random(rng, maxnodes, maxops):
             i = s.new(k, root=rng.random() < .08)
             # give it some out-pointers
             for _ in range(rng.randrange(0, 3)):
-                ts = [t for t in s.targets() if ok_edge(s, i, t) and (t != i or rng.random() < .15)]
-                if ts and k != 'B': s.link(i, rng.choice(ts))
+                t = s.pick_target(i)
+                if t is not None and k != 'B' and (t != i or rng.random() < .15): s.link(i, t)
             # and make something point to it
             if rng.random() < .7:
-                hs = [h for h in s.subjects('SRALTEUsru') if h != i and ok_edge(s, h, i)]
-                if hs: s.link(rng.choice(hs), i)
-            if rng.random() < .15: s.tls_set(rng.randrange(1, 6), i) if i not in s.owned and s.isreg(i) else None
+                h = s.pick(lambda h: s.n[h]['k'] in HOLD and h != i and s.usable(h) and ok_edge(s, h, i))
+                if h is not None: s.link(h, i)
+            if rng.random() < .15 and i not in s.owned and s.isreg(i): s.tls_set(rng.randrange(1, 6), i)
             if rng.random() < .75: s.drop(i)
         elif r < .38 and len(s.n) < maxnodes:
             # a Box with a freshly made, exclusively owned target
             b = s.new('B')
             t = s.new(rng.choice('SRALTEU'))
             for _ in range(rng.randrange(0, 2)):
-                ts = [x for x in s.targets() if x != t and ok_edge(s, t, x)]
-                if ts: s.link(t, rng.choice(ts))
+                x = s.pick_target(t)
+                if x is not None and x != t: s.link(t, x)
             s.store(b, 0, t); s.owned.add(t); s.drop(t)
-            hs = [h for h in s.subjects('SRALTEU') if h != b and h != t]
-            if hs and rng.random() < .8: s.link(rng.choice(hs), b)
+            h = s.pick_subject('SRALTEU', avoid=(b, t))
+            if h is not None and rng.random() < .8: s.link(h, b)
             if rng.random() < .7: s.drop(b)
         elif r < .55:
-            hs = s.subjects('SRALTEUsru')
-            if hs:
-                h = rng.choice(hs)
-                ts = [t for t in s.targets() if ok_edge(s, h, t)]
-                if ts: s.link(h, rng.choice(ts))
+            h = s.pick_subject(HOLD)
+            if h is not None:
+                t = s.pick_target(h)
+                if t is not None: s.link(h, t)
         elif r < .66:
-            hs = s.subjects('ALTEUu')
-            if hs: s.remove(rng.choice(hs))
+            h = s.pick_subject('ALTEUu')
+            if h is not None: s.remove(h)
         elif r < .72:
-            hs = s.subjects('SRs')
-            if hs:
-                h = rng.choice(hs); s.store(h, rng.randrange(len(s.n[h]['f'])), 0)
+            h = s.pick_subject('SRs')
+            if h is not None: s.store(h, rng.randrange(len(s.n[h]['f'])), 0)
         elif r < .80:
             if s.stack: s.drop(rng.choice(sorted(s.stack)))
         elif r < .83:
             if s.tls: s.tls_rem(rng.choice(sorted(s.tls)))
         elif r < .85:
-            ts = [t for t in s.targets() if s.isreg(t)]
-            if ts: s.tls_set(rng.randrange(1, 6), rng.choice(ts))
+            t = s.pick(lambda t: s.isreg(t) and t not in s.owned and s.usable(t))
+            if t is not None: s.tls_set(rng.randrange(1, 6), t)
         elif r < .855 and len(s.n) < maxnodes:
             # copy of a usable object none of whose targets is exclusively owned
-            c = [i for i in s.subjects('SRALTEU') if not any(t in s.owned for t in s.ptrs(i))
-                 and all(s.usable(t) for t in s.ptrs(i))]
-            if c:
-                j = s.copy(rng.choice(c))
-                hs = [x for x in s.subjects('SRALTEU') if x != j]
-                if hs and rng.random() < .6: s.link(rng.choice(hs), j)
+            c = s.pick(lambda i: s.n[i]['k'] in 'SRALTEU' and s.usable(i)
+                       and all(t not in s.owned and s.usable(t) for t in s.ptrs(i)))
+            if c is not None:
+                j = s.copy(c)
+                h = s.pick_subject('SRALTEU', avoid=(j,))
+                if h is not None and rng.random() < .6: s.link(h, j)
                 if rng.random() < .6: s.drop(j)
         elif r < .87:
-            c = [i for i in sorted(s.stack) if s.isreg(i) and i not in s.owned and s.indegree(i) == 0
-                 and s.n[i]['k'] != 'B']
-            if c: s.delete(rng.choice(c))
+            c = [i for i in sorted(s.stack) if s.isreg(i) and i not in s.owned and s.n[i]['k'] != 'B']
+            if c:
+                i = rng.choice(c)
+                if s.indegree(i) == 0: s.delete(i)
         elif r < .95:
             s.collect(narrow=rng.random() < .5)
         else:
@@ -498,7 +541,8 @@ def parse(line):
             for kv in f[1:]:
                 if '=' not in kv: continue
                 k, v = kv.split('=', 1)
-                o[k] = v if k in ('t', 'x', 'h') else set(int(x) for x in v.split(',') if x)
+                if k in ('t', 'x', 'h') or (v and not v[0].isdigit()): o[k] = v
+                else: o[k] = set(int(x) for x in v.split(',') if x)
             out.append(o)
         else:
             out.append({'op': part})
@@ -510,10 +554,15 @@ def longest_chain_hint(case):
 
 
 SPEC = {}      # case -> specification transcript of the current batch (model/spec cross-check in corr)
+GENERATED = set()      # cases produced by the generators / the corpus: valid programs by construction
+
+
+def is_valid(case):
+    return case in GENERATED or valid_script(case)
 
 
 def oracle(case, impl, spec):
-    if spec == 'NOOBS' or spec.startswith('DRIVERERROR') or not valid_script(case):
+    if spec == 'NOOBS' or spec.startswith('DRIVERERROR') or not is_valid(case):
         return None             # nothing observed / not a valid program (only arises while shrinking)
     pi, ps = parse(impl), parse(spec)
     for n, o in enumerate(pi):
@@ -527,6 +576,11 @@ def oracle(case, impl, spec):
         lost = b['r'] - a['a']
         if lost:
             return 'observation %d (%s): reachable object(s) %s no longer alive' % (n, a['op'], sorted(lost)[:8])
+        if isinstance(b.get('k'), set) and b.get('h') == '1111':
+            lost = b['k'] - a['a']      # proved (mark_exact): k = registered and (root-flagged or reachable)
+            if lost:
+                return 'observation %d (%s): object(s) %s that must be kept (reachable or root-flagged) no longer alive' % (
+                    n, a['op'], sorted(lost)[:8])
         fin = b['r'] & a['f']
         if fin:
             return 'observation %d (%s): reachable probe object(s) %s finalised' % (n, a['op'], sorted(fin)[:8])
@@ -536,7 +590,7 @@ def oracle(case, impl, spec):
 
 
 def corr(case, impl, model):
-    if model == 'NOOBS' or model.startswith('DRIVERERROR') or not valid_script(case):
+    if model == 'NOOBS' or model.startswith('DRIVERERROR') or not is_valid(case):
         return None
     pi, pm = parse(impl), parse(model)
     for n, o in enumerate(pm):
@@ -554,7 +608,13 @@ def corr(case, impl, model):
                         'state of the model at this collection point' % (n, hy))
             sp = SPEC.get(case)
             if sp:
-                r = parse(sp)[n]['r']
+                so = parse(sp)[n]
+                r = so['r']
+                if so.get('h') != '1111' or not isinstance(so.get('k'), set):
+                    return ('observation %d: specification side: hypotheses %s, must-keep set %s' % (n, so.get('h'), str(so.get('k'))[:40]))
+                if not (r <= so['k'] and so['k'] <= r | set(int(x) for x in re.findall(r'N(\d+)[A-Z]!', case))):
+                    return ('observation %d: proved must-keep set %s differs from the executable reachability %s (+ root-flagged)'
+                            % (n, sorted(so['k'])[:10], sorted(r)[:10]))
                 rootf = set(int(x) for x in re.findall(r'N(\d+)[A-Z]!', case))
                 if not (r <= b['m'] and b['m'] <= r | rootf):
                     return ('observation %d: marks of the extracted model %s differ from the extracted reachability %s (+ root-flagged)'
@@ -659,24 +719,36 @@ def run(ctx):
             print('REPLAY: %s\n  impl  %s\n  model %s\n  spec  %s' % (x[4], x[1][:400], (x[2] or '')[:400], (x[3] or '')[:400]))
         d.report()
         return
-    d.feed(CORPUS + [corpus_dag(30), corpus_dag(36)], 'corpus')
-    n = 300 if quick else 10000
+    def feed(dd, cs, label=''):
+        GENERATED.update(cs)
+        dd.feed(cs, label)
+    corpus = CORPUS + [corpus_dag(30), corpus_dag(36)]
+    bad = [c for c in corpus if not valid_script(c)]
+    if bad: raise RuntimeError('corpus case is not a valid program: ' + bad[0][:200])
+    feed(d, corpus, 'corpus')
+    n = 500 if quick else 10000
     size = 200 if quick else 5000
     cases = []
     for i in range(n):
-        sz = ctx.rng.choice([6, 12, 25, 60, size]) if quick else ctx.rng.choice([6, 12, 25, 60, 200, 200, 600, size])
+        if quick: sz = ctx.rng.choice([6, 12, 25, 60, size])
+        else: sz = size if i % 800 == 0 else ctx.rng.choice([6, 12, 25, 60, 200, 200, 600])     # 13 graphs of up to 5000 nodes
         cases.append(gen_case(ctx.rng, sz))
     if not quick:
         for L in (1000, 5000, MAX_CHAIN_REGULAR):
             for kinds in ('R', 'RS', 'RSALTEU'):
                 cases.append(gen_chain(ctx.rng, L, kinds))
+    # self-test of the generators: a sample of the generated scripts is replayed by the independent validity checker
+    small = [c for c in cases if c.count(' ') < 500][:300]
+    bad = [c for c in small if not valid_script(c)]
+    if bad: raise RuntimeError('generator produced an invalid program: ' + bad[0][:300])
+    ctx.cov['generator_selfcheck'] = '%d generated scripts replayed by valid_script: all valid programs' % len(small)
     for i in range(0, len(cases), 500):
-        d.feed(cases[i:i + 500])
+        feed(d, cases[i:i + 500])
     # over-retention of the conservative scan (evidence, not a verdict)
     stats(ctx, d, cases)
 
     def extra(dd):
-        dd.feed([gen_case(ctx.rng, 60) for _ in range(10 * min(n, 300))])
+        feed(dd, [gen_case(ctx.rng, 60) for _ in range(10 * min(n, 300))])
     d.report(extra)
     # open finding F1: dedicated probe
     f1 = [f for f in ctx.open_findings() if f.get('signature') == F1_SIG]
